@@ -27,6 +27,7 @@ type propSpec struct {
 	Filter   func(o *Obligation) bool // which obligations of the contracts belong to this property (nil: all)
 	Setup    func(p *Program)          // policies (inlining, nil checks) for this property's packages
 	Sweep    func(p *Program) []*Contract // default contracts for functions without an explicit one
+	Pre      func(pc *propCheck)          // obligations produced without loading packages (C18)
 }
 
 var props = map[string]*propSpec{}
@@ -77,7 +78,9 @@ type propCheck struct {
 	Bounded   []string
 	Unclaimed map[string]string // obligation name -> reason (committed list of sites that are not claimed)
 	witnessCache map[string]witnessOutcome
+	ExtraInputs []string // "obligation\x00input" pairs found by bounded components
 	cmdReplay *replayResult
+	tgReplay  *replayResult
 	replayCache map[string]replayResult
 	replays   map[*Obligation]replayResult
 	models    map[*Obligation]string
@@ -180,6 +183,12 @@ func runCheck(id, tier string) int {
 		fmt.Fprintln(os.Stderr, "work dir:", work)
 	}
 	pc.WorkDir = work
+	if ps.Pre != nil {
+		pc.P = &Program{}
+		ps.Pre(pc)
+		pc.discharge()
+		return pc.report(t0)
+	}
 	p, err := loadProgram(repoDir, ps.Patterns, nil)
 	if err != nil {
 		// the tree does not load (does not compile): not a property verdict
@@ -427,12 +436,33 @@ func (pc *propCheck) report(t0 time.Time) int {
 			if !rr.Tried {
 				rr = pc.replayTranslator(o, conOf[o])
 			}
+			if !rr.Tried && conOf[o] != nil && strings.HasSuffix(conOf[o].Pkg, "/cmd/test_gen") {
+				if pc.tgReplay == nil {
+					x := pc.replayTestGen()
+					pc.tgReplay = &x
+				}
+				rr = *pc.tgReplay
+				if o.Result != nil && o.Result.Status == "sat" {
+					// the solver's witness (a line or a file name)
+					if q, err := os.ReadFile(o.File); err == nil {
+						mf := o.File + ".val.smt2"
+						os.WriteFile(mf, append(q, []byte("(get-value (line name))\n")...), 0o644)
+						_, out, _ := runOne(context.Background(), solvers[0], mf, 5)
+						pc.models[o] = out
+					}
+				}
+			}
 			pc.replays[o] = rr
 			if rr.Tried {
 				pc.nReplayTried++
 			}
 			if rr.Confirmed {
 				pc.nReplayConfirmed++
+			}
+		}
+		for _, ei := range pc.ExtraInputs {
+			if parts := strings.SplitN(ei, "\x00", 2); len(parts) == 2 && parts[0] == o.Name {
+				pc.replays[o] = replayResult{Tried: true, Confirmed: true, Detail: parts[1], Cmd: "bounded exhaustive run of the real function (replay/coq_bounded_test.go)"}
 			}
 		}
 		path := pc.writeReplay(replayDir, o, reasons[o])
